@@ -34,6 +34,12 @@ CLAIMED = {
    design_ref="DESIGN.md 4.7, 5 (C17)",
    note="Trusted: clang AST, sa/ dataflow, the table of allocating / NULL-intolerant CPython APIs in sa/rules/alloc.py. The allocation-failure hook named in the property is for dynamic techniques and is not used.",
    technique="dataflow over clang AST CFGs: unchecked-NULL propagation, realloc store-back and free/reset typestate, who-may-call table"),
+ "C16": dict(
+   category="other",
+   text="Ownership dataflow over the clang CFG of every function of all 22 translation units (alias classes with owned-reference counts, NULL refinement, inferred returns-new-reference and out-parameter summaries): every acquired reference is released/returned/stored/stolen on every path to every return, NULL never reaches Py_DECREF/Py_INCREF (LOCAL-REF); the set-iteration cursor functions preserve 'cached key owned iff position > 0' and never release it twice (CURSOR-HOLD, object-key TUs). Decides the local part of the reference discipline on all paths incl. error exits; cross-function ownership of node fields and out-of-bounds accesses need a sanitizer and are not decided.",
+   design_ref="DESIGN.md 4.7, 5 (C16)",
+   note="Trusted: the new-reference / stealing API tables in sa/rules/refs.py, clang AST, sa/ dataflow. One accepted idiom (dead error exit of nextGenericKeyIter) is listed in the evidence.",
+   technique="ownership/typestate dataflow on clang AST CFGs with inferred interprocedural summaries"),
 }
 
 NA_PENDING = "check not built yet (engine under construction); see DESIGN.md section 11"
